@@ -167,12 +167,17 @@ def fold(
     else:
         repr_list = value
 
-    valuestr = f'{prefix}{lbrack}{f'{sep} '.join(repr_list)}{rbrack}'
+    # a one-element tuple needs its trailing comma to read back as a tuple
+    # (not when the parentheses are the argument list of a call: `Name(...)`)
+    iscall = bool(prefix) and (prefix[-1].isalnum() or prefix[-1] == '_')
+    trailer = sep if isinstance(value, tuple) and len(repr_list) == 1 and not iscall else ''
+
+    valuestr = f'{prefix}{lbrack}{f'{sep} '.join(repr_list)}{trailer}{rbrack}'
     if im.fitsfmt(valuestr, addlevels=addlevels):
         im.print(valuestr)
     else:
         im.print(f'{prefix}{lbrack}')
         with im.indent():
-            im.print(f'{sep}\n'.join(repr_list))
+            im.print(f'{sep}\n'.join(repr_list) + trailer)
         im.print(rbrack)
     return im.printed_text().rstrip()
